@@ -186,7 +186,7 @@ def clause_b(c: Check):
              'src/exactly_lib/cli/definitions/exit_codes.py')
     iur = ix.cls('exactly_lib.cli.main_program:_InvalidUsageReporter')
     rep = ix.class_member(iur, 'report')
-    rets = [fo.fold(rep.module, rep, n.value) for n in walk_own(rep.node) if isinstance(n, ast.Return)]
+    rets = [fo.fold(rep.module, rep, v) for v in util.returned_values(rep)]
     writes_out = any(isinstance(n, ast.Attribute) and n.attr == 'out' for n in ast.walk(rep.node))
     c.expect(rets == [DOCUMENTED_INVALID_USAGE] and not writes_out, 'C02-b', '_InvalidUsageReporter.report',
              'invalid usage returns %s / writes to stdout: %s' % (rets, writes_out), rep.loc())
@@ -306,11 +306,11 @@ def clause_de(c: Check):
         mode = MODE[oname]
         c.require(ix.is_subclass(rcls, base_cls), 'C02-e: %s is not a TestCaseResultReporter' % rcls.key)
         dep = ix.class_member(rcls, 'depends_on_result_in_sandbox')
-        rets = [fo.fold(dep.module, dep, n.value) for n in walk_own(dep.node) if isinstance(n, ast.Return)]
+        rets = [fo.fold(dep.module, dep, v) for v in util.returned_values(dep)]
         c.expect(rets == [mode == 'keep'], 'C02-e', '%s/depends_on_result_in_sandbox' % oname,
                  'mode %s: sandbox is %skept (%s)' % (mode, '' if rets == [True] else 'not ', rets), dep.loc())
         atc = ix.class_member(rcls, 'execute_atc_and_skip_assertions')
-        rets = [n.value for n in walk_own(atc.node) if isinstance(n, ast.Return)]
+        rets = util.returned_values(atc)
         if mode == 'act':
             ok = len(rets) == 1 and isinstance(rets[0], ast.Attribute) and rets[0].attr == 'std_files'
             c.expect(ok, 'C02-e', '%s/execute_atc_and_skip_assertions' % oname,
